@@ -282,6 +282,36 @@ func (cu *culprits) ofCmds(cmds []string) string {
 	return class
 }
 
+// classesOfCmds: the culprit classes of the crypto map commands of a script, each class once ("other" for anything that is no crypto
+// map command of a culprit map; definitions of ACLs / transform-sets come with an entry and are not judged). A script that touches maps
+// of two known classes is judged per class — never excused as a whole.
+func (cu *culprits) classesOfCmds(cmds []string) []string {
+	seen := map[string]bool{}
+	var out []string
+	add := func(k string) {
+		if !seen[k] {
+			seen[k] = true
+			out = append(out, k)
+		}
+	}
+	for _, c := range cmds {
+		w := strings.Fields(strings.TrimPrefix(c, "no "))
+		if len(w) >= 3 && w[0] == "crypto" && w[1] == "map" {
+			add(cu.ofMap(w[2]))
+			continue
+		}
+		if len(w) >= 2 && (w[0] == "access-list" || (w[0] == "crypto" && w[1] == "ipsec") || (w[0] == "clear" && len(w) > 2 && w[2] == "access-list")) {
+			continue
+		}
+		add("other")
+	}
+	if len(out) == 0 {
+		out = []string{"other"}
+	}
+	sort.Strings(out)
+	return out
+}
+
 // ofLeftovers: every leftover object was referenced on the initial device only by entries of crypto maps of ONE culprit class.
 func (cu *culprits) ofLeftovers(lo []string, dev *vdev) string {
 	class := ""
@@ -415,6 +445,41 @@ func (cu *culprits) ofViews(got, want string) string {
 		return "other"
 	}
 	return class
+}
+
+// classesOfViews: the culprit classes of the view lines in which the two views differ, each class once ("other" for a line that is
+// not the `[crypto map interface X]` line of a culprit map): judged per class.
+func (cu *culprits) classesOfViews(got, want string) []string {
+	in := func(l []string) map[string]bool {
+		m := map[string]bool{}
+		for _, x := range l {
+			m[x] = true
+		}
+		return m
+	}
+	g, w := strings.Split(strings.TrimSpace(got), "\n"), strings.Split(strings.TrimSpace(want), "\n")
+	gm, wm := in(g), in(w)
+	seen := map[string]bool{}
+	var out []string
+	for _, l := range append(append([]string{}, g...), w...) {
+		if gm[l] && wm[l] {
+			continue
+		}
+		k := "other"
+		if strings.HasPrefix(l, "[crypto map interface ") {
+			intf := strings.TrimSuffix(strings.Fields(strings.TrimPrefix(l, "[crypto map interface "))[0], "]")
+			k = cu.ofMap(cu.bindOf[intf])
+		}
+		if !seen[k] {
+			seen[k] = true
+			out = append(out, k)
+		}
+	}
+	if len(out) == 0 {
+		out = []string{"other"}
+	}
+	sort.Strings(out)
+	return out
 }
 
 // changedHeads: the top-level lines whose block (line with its sub-lines) is not the same in both texts.
@@ -825,10 +890,14 @@ func run(ctx *Ctx) *Result {
 				}
 			}
 			if got := final.managedView(managed); got != wantView {
-				culprit := cu.ofViews(got, wantView)
-				if f2, ch := withoutGivenUpMaps(final, c.spoc); culprit == "other" && ch && f2.managedView(managed) == wantView {
-					culprit = "ldap_attribute_map_left_on_further_hosts_of_aaa_server"
+				classes := cu.classesOfViews(got, wantView)
+				if f2, ch := withoutGivenUpMaps(final, c.spoc); len(classes) == 1 && classes[0] == "other" && ch && f2.managedView(managed) == wantView {
+					classes = []string{"ldap_attribute_map_left_on_further_hosts_of_aaa_server"}
 				}
+				for _, culprit := range classes[1:] {
+					res.Fail(sig("not_converged", "culprit", culprit), "after executing the script the managed part differs from the target:\n"+got+"-- want\n"+wantView+"-- script\n"+out, c)
+				}
+				culprit := classes[0]
 				res.Fail(sig("not_converged", "culprit", culprit), "after executing the script the managed part differs from the target:\n"+got+"-- want\n"+wantView+"-- script\n"+out, c)
 				return
 			}
@@ -863,7 +932,9 @@ func run(ctx *Ctx) *Result {
 				}
 				res.Fail(sig("second_compare_failed", "reason", drcReason(err2), "culprit", culprit), fmt.Sprintf("second compare: exit %d %s %s", st2, pan2, err2), c)
 			} else if strings.TrimSpace(out2) != "" {
-				res.Fail(sig("second_compare_not_empty", "culprit", cu.ofCmds(splitScript(out2))), "second compare reports changes:\n"+out2+"-- first script\n"+out, c)
+				for _, k := range cu.classesOfCmds(splitScript(out2)) {
+					res.Fail(sig("second_compare_not_empty", "culprit", k), "second compare reports changes:\n"+out2+"-- first script\n"+out, c)
+				}
 			}
 			if len(cmds) == 0 && c.dev.managedView(managed) != wantView {
 				res.Fail(sig("unchanged_reported_for_different_device"), "empty script although the device is not equivalent:\n"+c.dev.managedView(managed)+"-- want\n"+wantView, c)
@@ -966,17 +1037,23 @@ func run(ctx *Ctx) *Result {
 					continue
 				}
 				if got := ex2.d.managedView(managed); got != wantView {
-					culprit := cu.ofViews(got, wantView)
-					if f2, ch := withoutGivenUpMaps(ex2.d, c.spoc); culprit == "other" && ch && f2.managedView(managed) == wantView {
-						culprit = "ldap_attribute_map_left_on_further_hosts_of_aaa_server"
+					classes := cu.classesOfViews(got, wantView)
+					if f2, ch := withoutGivenUpMaps(ex2.d, c.spoc); len(classes) == 1 && classes[0] == "other" && ch && f2.managedView(managed) == wantView {
+						classes = []string{"ldap_attribute_map_left_on_further_hosts_of_aaa_server"}
 					}
+					for _, k := range classes[1:] {
+						res.Fail(sig("resume_not_converged", "culprit", k), fmt.Sprintf("%s: second run ends in\n%s-- want\n%s", where, got, wantView), c)
+					}
+					culprit := classes[0]
 					res.Fail(sig("resume_not_converged", "culprit", culprit), fmt.Sprintf("%s: second run ends in\n%s-- want\n%s-- first script\n%s-- second script\n%s", where, got, wantView, out, out2), c)
 					continue
 				}
 				if k%3 == 0 {
 					out3, _, st3, _ := runDrc(ex2.d.print(), c.Spoc)
 					if st3 != 0 || strings.TrimSpace(out3) != "" {
-						res.Fail(sig("resume_further_compare_not_empty", "culprit", cu.ofCmds(splitScript(out3))), fmt.Sprintf("%s: a further compare after the second run reports\n%s", where, out3), c)
+						for _, k := range cu.classesOfCmds(splitScript(out3)) {
+							res.Fail(sig("resume_further_compare_not_empty", "culprit", k), fmt.Sprintf("%s: a further compare after the second run reports\n%s", where, out3), c)
+						}
 					}
 				}
 			}
